@@ -263,7 +263,7 @@ class WriterShapes:
         """structure of the element / value expression of a comprehension: a direct call, or a name
         bound by `for (a, b) in map(g, C)` / `for x in (g(y) for y in C)` to (part of) g's result."""
         env = self.prog.env(f)
-        if isinstance(val, ast.Call):
+        if isinstance(val, (ast.Call, ast.Dict, ast.List, ast.ListComp, ast.DictComp)):
             return self.of_expr(f, val, prefix, at, depth)
         if isinstance(val, ast.Name):
             for gen in comp.generators:
